@@ -106,7 +106,7 @@ func genOpts(r *common.Rng, shard uint64, allocated int) string {
 // received put, for count puts, as an IPFS error or as an RPC error), of
 // BlockAllocate calls and of Pin calls.
 func genFaults(r *common.Rng, c *tcase, nblocks int) {
-	if r.Chance(9, 20) {
+	if r.Chance(11, 20) {
 		return
 	}
 	nf := r.Range(1, 2)
@@ -322,6 +322,18 @@ func gen(ctx context.Context, r *common.Rng, k, total int, tier string) tcase {
 			top.kids = append(top.kids, genFile(r, chunk, limitGuess, maxSize))
 		}
 	}
+	manyFiles := tier == "thorough" && k%150 == 77
+	if manyFiles {
+		// more files in one directory than links fit one shard node
+		d := &tnode{kind: 'd'}
+		n := 6000 + r.Intn(40)
+		for i := 0; i < n; i++ {
+			d.names = append(d.names, fmt.Sprintf("t%d", i))
+			d.kids = append(d.kids, &tnode{kind: 'f', size: r.Range(1, 3), seed: i})
+		}
+		top = &tnode{kind: 'd', names: []string{"many"}, kids: []*tnode{d}}
+		c.mode, c.local, c.format, c.src, c.route = "shard", false, "unixfs", "mem", "direct"
+	}
 	c.tree = entriesString(top.names, top.kids)
 
 	// malformed / refused inputs
@@ -341,6 +353,10 @@ func gen(ctx context.Context, r *common.Rng, k, total int, tier string) tcase {
 	}
 
 	c.allocs = genAllocs(r)
+	if manyFiles {
+		c.opts = genOpts(r, uint64(1<<22), 0)
+		return c
+	}
 	sizes, totalSize, maxSize2 := probe(ctx, c)
 	limit := uint64(1 << 30)
 	if c.mode == "shard" {
@@ -407,6 +423,15 @@ func genStream(r *common.Rng, k, total int, tier string) tcase {
 	if len(parts) == 0 {
 		c.tree = "syn:-"
 	}
+	// the root handed to Finalize is normally the last block; sometimes an earlier one or a foreign CID
+	if len(sizes) > 0 && len(sizes) < 5000 {
+		switch r.Intn(12) {
+		case 0:
+			c.tree += "@" + strconv.Itoa(r.Intn(len(sizes)))
+		case 1:
+			c.tree += "@x"
+		}
+	}
 	c.allocs = genAllocs(r)
 	tot, mx := 0, 0
 	for _, s := range sizes {
@@ -427,9 +452,28 @@ func genStream(r *common.Rng, k, total int, tier string) tcase {
 	return c
 }
 
+// synRoot says which block Finalize gets as root: -1 the last one, -2 a CID outside the stream, else the i-th distinct block.
+func synRoot(spec string) (int, bool) {
+	i := strings.IndexByte(spec, '@')
+	if i < 0 {
+		return -1, true
+	}
+	if spec[i+1:] == "x" {
+		return -2, true
+	}
+	v, err := strconv.Atoi(spec[i+1:])
+	if err != nil || v < 0 {
+		return 0, false
+	}
+	return v, true
+}
+
 // synBlocks expands a stream spec into (content key, size) pairs.
 func synBlocks(spec string) ([][2]int, bool) {
 	spec = strings.TrimPrefix(spec, "syn:")
+	if i := strings.IndexByte(spec, '@'); i >= 0 {
+		spec = spec[:i]
+	}
 	var out [][2]int
 	var distinct [][2]int
 	if spec == "-" || spec == "" {
